@@ -87,6 +87,17 @@ def group_runs(g, tier):
             for b in (2, 2731, 8191, 16385, 21846, 65537):
                 runs += [H('mem', b=b, walks=60), H('phys', b=b, walks=40), H('ovl(mem,phys)', b=b, walks=30, lower=True)]
         return runs
+    if g == 'xfer':
+        cfgs = ['mem', 'phys', 'alt(zr,mem)', 'ovl(mem,mem)'] if q else ['mem', 'phys', 'alt(zr,mem)', 'alt(zr/zs,phys)', 'ovl(mem,mem)', 'ovl(phys,phys)', 'ovl(mem,mem,mem)', 'alt(zr,ovl(mem,mem))']
+        runs = []
+        k = 0
+        for c1 in cfgs:
+            for c2 in cfgs:
+                k += 1
+                heavy = ('phys' in c1) + ('phys' in c2)
+                runs.append(dict(kind='tree2', cfg1=c1, cfg2=c2, names=['ascii', 'prefix', 'dotted', 'multi'][k % 4], b=[1, 1, 4096, 8193][k % 4] if q else [1, 2731, 8193, 21846][k % 4],
+                                 frac=(0.004 if heavy else 0.008) if q else 0.25, inst='MC_Tree2_q', tspec='Trace_Tree2'))
+        return runs
     if g == 'join':
         return [dict(kind='join', inst='MC_Join_q' if q else 'MC_Join_t', random=3000 if q else 200000, chains=3000 if q else 100000, tspec='Trace_Join')]
     raise ToolError('unknown group ' + g)
@@ -147,6 +158,14 @@ def run_group(g, tier, seed, use_cache=True):
             if r['extreme']:
                 args.append('--extreme')
             s = harness(args)
+        elif r['kind'] == 'tree2':
+            mc = run_mc(r['inst'], r['inst'])
+            if not mc['ok']:
+                raise ToolError('model checking of %s failed:\n%s' % (r['inst'], mc.get('tail', '')))
+            mcs[r['inst']] = mc
+            l2 = ensure_lts(r['inst'], r['inst'] + '_emit')
+            s = harness(['tree2', '--lts', l2, '--cfg1', r['cfg1'], '--cfg2', r['cfg2'], '--names', r['names'], '--b', r['b'], '--frac', r['frac'],
+                         '--seed', seed * 1000 + i, '--out', out])
         elif r['kind'] == 'join':
             mc = run_mc(r['inst'], r['inst'])
             if not mc['ok']:
@@ -198,6 +217,11 @@ def run_group(g, tier, seed, use_cache=True):
                     if len(ops) > 10:
                         break
                     continue
+                if e['ev'] in ('init2', 'call2'):
+                    ops.append({'cfgs': e['cfgs']} if e['ev'] == 'init2' else {k: e[k] for k in ('op', 'i', 'p', 'j', 'q', 'res')})
+                    if len(ops) > 6:
+                        break
+                    continue
                 if e['ev'] in ('join', 'chain'):
                     ops.append({k: e[k] for k in e if k in ('ev', 'base', 'arg', 'steps')} | {'sync': e['sync'].get('path'), 'c': e['sync']['c']})
                     if len(ops) > 5:
@@ -239,6 +263,7 @@ PROPS = {
     'C08': dict(groups=['ovl']),
     'C09': dict(groups=['ovl']),
     'C06': dict(groups=['join']),
+    'C11': dict(groups=['xfer', 'tree', 'alt', 'ovl']),
     'C14': dict(groups=['handles']),
     'C04': dict(groups=['handles', 'tree', 'ovl']),
     'C10': dict(groups=['ovl_cycles', 'ovl']),
@@ -352,6 +377,10 @@ MANIFEST_TEXT = {
                 'with block sizes 1..65537 so that abstract lengths <= 4 cover concrete lengths around the 8 KiB copy buffer and above 64 KiB, non-UTF-8 patterns, overlay copy-up from lower layers; '
                 '(2) the tree/overlay walks whose effect conjunct compares the bytes of every file of the universe after create/append/copy/move with rotating read-buffer sizes; (3) DirLenZero in ObsMatches.',
                 note=_NOTE, technique='TLA+ writer machine (VfsHandles) + Level-A content transformers; TLC trace validation of bytes', ref='DESIGN.md 6 C04'),
+    'C11': dict(level=_LVL + 'Composite effects (create_dir_all, remove_dir_all, copy/move of files and directories incl. copy_dir counts) are atomic Level-A operators; '
+                'for transfers ACROSS instances TLC explores all pairs of well-formed trees of a 3-path universe x all transfers (MC_Tree2, 784 states, 51856 edges) and the harness replays a seeded sample '
+                '(thorough: 25%) of those edges for every ordered pair of configurations (memory, physical, altroot, overlay incl. sources served from a lower layer), observing both filesystems completely.',
+                note=_NOTE, technique='TLA+ two-instance transfer model (VfsTree2/MC_Tree2) + LTS replay on ordered pairs of backends + TLC trace validation (Trace_Tree2)', ref='DESIGN.md 6 C11'),
     'C12': dict(level=_LVL + 'Conjunct errpath: every error of every call and observer names a path of the caller namespace related to the call; pinned classes are part of conjunct class.',
                 note=_NOTE, technique='TLA+ ErrPathOK on every failing call/observer of every trace event', ref='DESIGN.md 6 C12'),
     'C13': dict(level=_LVL + 'Every harness call runs under catch_unwind; panic is an outcome class no trace action accepts.',
